@@ -15,6 +15,12 @@ Case kinds
             (u_a, beta), a different population object, setter calls (nenv, nrep, var_*, set_h2/set_H2) and copy/deepcopy of
             the protocol; the whole session is replayed by the state machine of Model/C14_Session.v, every call is judged by
             the predicate against the configuration in force at that call
+  herit   : heritability over the FAMILY of genomic models: a population with heterozygous loci (ploidy 1..4), a model of every concrete class
+            of pybrops.model.gmod (additive, rrBLUPModel0, additive + dominance with non-zero u_d / with u_d = None), ONE G_E_Phenotyping
+            object driven through set_h2 / set_H2 (scalar and per-trait targets, < 1, = 1, rarely > 1) with in-place updates of u_a / u_d
+            in between; each call judged against (1-h)/h * var_A resp. var_G recomputed from the raw genotypes and effects, and compared in
+            Coq with Model/C14_Herit.v (dominance design [A | D]); plus TruePhenotyping (truth incl. the dominance part, both setters refuse),
+            TrueBreedingValue (A @ u_a + location) and a zero-noise G_E trial on the same model
 """
 import math, copy
 from fractions import Fraction
@@ -23,7 +29,7 @@ import coqemit as E
 
 ID = "C14"
 PROPS = "Props/C14.v"
-IMPORTS = "From Coq Require Import String.\nFrom PV Require Import Lib.Common Model.C14_Pheno Model.C14_Session Model.C14_Alias."
+IMPORTS = "From Coq Require Import String.\nFrom PV Require Import Lib.Common Model.C14_Pheno Model.C14_Session Model.C14_Alias Model.C14_Herit."
 SHARD = 40
 LEVEL_TEXT = ("Coq theorems over an exact-rational executable model of G_E_Phenotyping.phenotype (draw consumption order, env-major "
               "block concatenation, label columns incl. the generated TaxonNN/TraitN names), set_h2/set_H2 and "
@@ -35,13 +41,17 @@ LEVEL_TEXT = ("Coq theorems over an exact-rational executable model of G_E_Pheno
               "every one of the nenv environments in force at the call is simulated (also after nenv was reassigned); a state machine over (protocol parameters, "
               "genomic model, population) for sessions on one protocol object, with theorems that every call's table is a function of the state in force at that call and its draws only "
               "(no dependence on history) and satisfies the single-call statements for the labels, genotypes, coefficients and design in force. The model is tied to the code "
-              "by evaluating it inside Coq against the implementation's outputs on generated trials/tables and whole sessions, and by 43 kernel expressions REGENERATED FROM THE SOURCE on every run "
+              "by evaluating it inside Coq against the implementation's outputs on generated trials/tables, whole sessions and heritability cases over every concrete genomic-model class, and by 45 kernel expressions REGENERATED FROM THE SOURCE on every run "
               "(Gen/C14_Kernel.v: the record formula and its association, the block labels env+1/rep+1, the loop headers zip(range(nenv), nrep)/range(env_nrep), the refusal test len(nrep) < nenv with the "
               "call's argument order, which variance parameter scales which effect, the label columns, prefix/index/width of the generated TaxonNN/TraitN names in both protocols, (1-h2)/h2*var of both "
-              "heritability setters, the nenv setter's re-broadcast test and numpy.full arguments, the nrep/variance setters' numpy.full arguments, TruePhenotyping's group-column test and whether it copies the population's explicit taxa labels into the table (numpy.array(gvmat.taxa)), TrueBreedingValue's "
+              "heritability setters and which population variance each of them reads (k_h2_broad / k_H2_broad: var_A = self.gpmod.var_A(pgmat), var_G = self.gpmod.var_G(pgmat)), the nenv setter's re-broadcast test and numpy.full arguments, the nrep/variance setters' numpy.full arguments, TruePhenotyping's group-column test and whether it copies the population's explicit taxa labels into the table (numpy.array(gvmat.taxa)), TrueBreedingValue's "
               "argument, the estimate's group-by key test, dropna/as_index/aggregation function, both from_numpy argument lists and the hash join's key/destination/source) that are proved equal to the hand "
               "model and about which the cell, calibration, re-broadcast and alignment theorems are restated (C14_kernel_*); scale covariance of the record formula and of the error variance; a small store model "
-              "of which label arrays a returned table shares with the population (a write into the taxa column of the G_E table and, since the repair of C14-truepheno-table-shares-labels, of the TruePhenotyping table with explicit or generated labels never reaches an array that existed before the call: proved at full strength, restated about the regenerated kernel, and probed on dedicated cases; the former sharing code is kept as old_tp_taxa_column with its refutation)")
+              "of which label arrays a returned table shares with the population (a write into the taxa column of the G_E table and, since the repair of C14-truepheno-table-shares-labels, of the TruePhenotyping table with explicit or generated labels never reaches an array that existed before the call: proved at full strength, restated about the regenerated kernel, and probed on dedicated cases; the former sharing code is kept as old_tp_taxa_column with its refutation); "
+              "heritability over the family of genomic models (Model/C14_Herit.v): the additive + dominance model's genotypic values run over the design [A | D] with D = (A != 0) & (A != ploidy) and the "
+              "coefficients [u_a ; u_d], its breeding values stay A @ u_a; set_h2 reads var_A, set_H2 reads var_G: whichever the class, the error variance written is (1-h)/h times THAT variance trait by trait "
+              "and calibrates it to the target (broad-sense calibration with the dominance design: var_G/(var_G+var_err) = H2), for the additive classes both setters coincide, and a set_H2 deriving the "
+              "error variance from var_A is refuted by a dominance model on a population with a heterozygous taxon")
 LEVEL_NOTE = ("trusted: Coq kernel + vm_compute; pandas groupby/mean, numpy matmul/var and the scale/unscale round trip of the breeding "
               "value matrices are compared within 2^-30 relative tolerance against the exact rational (summation order not modelled); "
               "numpy.random.Generator.multivariate_normal is trusted (scripted as mean + z*sqrt(diag cov) by the harness generator): "
@@ -56,18 +66,25 @@ RULE = ("case = trial (phased genotypes n in 1..12 incl. 10/11 for label widths,
         "(arbitrary records: taxon in several groups, null groups, 1..4 records per taxon) or monitor (fixed-seed real generator) or session "
         "(one protocol object of either class, 2..4 calls interleaved with 1..3 operations each drawn from: in-place genotype / taxa (also a reordering of the same labels) / group update, "
         "another population object (same or other size), u_a / beta update, copy / deepcopy, nenv / nrep / variance assignments incl. invalid ones, set_h2 / set_H2 incl. invalid targets; "
-        "14 fixed scripts always present); "
+        "14 fixed scripts always present) or herit (heritability over the model family: ploidy 1..4 with a forced heterozygous taxon and a homozygous one at the same locus, "
+        "2..8 taxa, 1..4 loci, 1..3 traits, model class additive / rrBLUPModel0 / additive+dominance with non-zero u_d at that locus / additive+dominance with u_d = None, obtained by constructor / deepcopy / "
+        "coefficient setters; ONE G_E_Phenotyping object, 2..5 steps of set_h2 / set_H2 (both always present) with scalar or per-trait (distinct) targets from {1, 7/8, 3/4, 5/8, 1/2, 1/4, 1/8}, 6% invalid (> 1), "
+        "interleaved with in-place u_a / u_d updates; 8 fixed scripts = every class x ploidy 2, 4; the scale corners 2^-40..2^20; the predicate recomputes var_A / var_G (population variance of A@u_a resp. "
+        "A@u_a + D@u_d) exactly from the raw genotypes and effects and demands var_err = (1-h)/h * var within 2^-28 relative, exact 0 for a target of 1; non-trivial = dominance model whose var_G differs from var_A in every trait); "
         "every trial/session additionally draws: a scale 2^k (k in -40,-20,-8,0,10,20) for effects, fixed effects and standard deviations (zeros stay exact zeros), the route by which the population "
         "(constructor / copy / deepcopy / select_taxa out of a larger population / mat-taxa-taxa_grp setters), the genomic model (constructor / deepcopy / coefficient setters), the protocol (constructor / "
         "its copy() / deepcopy() methods / defaults + setters) and the estimator (constructor / setters, one object shared by both calls) are obtained, and whether miscout is passed; fixed corners: 130 taxa, 300 markers, "
         "variance vectors mixing zeros and non-zeros at every scale, 8 aliasing probes; sessions reuse ONE estimator object reconfigured through its setters, replace the model object through the gpmod setter, copy through copy()/deepcopy(); "
         "after every call the inputs are compared with their snapshot and the returned table / matrix is overwritten in place to see that no input follows; "
         "all from one PRNG; non-trivial = >= 2 taxa, >= 2 records for some taxon and a non-identity row permutation (session: >= 2 calls with a change of the configuration between them); distinct by SHA-256 of the case")
-TRUSTED = ["harness/translate/c14_kernel.py (ast -> Gallina for the 43 kernel expressions; fail closed on any other statement shape) and the entry-point audit tables COVERED / SKIPPED / PARAMS of this module",
+TRUSTED = ["harness/translate/c14_kernel.py (ast -> Gallina for the 45 kernel expressions; fail closed on any other statement shape) and the entry-point audit tables COVERED / SKIPPED / PARAMS of this module",
            "pandas DataFrame.groupby(sort=True, dropna=False).agg(mean) (modelled as sorted distinct keys + arithmetic mean, compared in tolerance regime T)",
            "numpy.random.Generator.multivariate_normal for diagonal covariance (scripted as mean + z*sqrt(var)); distributional convergence only monitored",
            "DenseBreedingValueMatrix.from_numpy/unscale round trip (property C15) within 2^-30 relative",
-           "DenseAdditiveLinearGenomicModel.gegv/gebv/var_A/var_G are modelled as Z@u_a + (beta[0] + mean-weighted other fixed effects) and population variance"]
+           "DenseAdditiveLinearGenomicModel.gegv/gebv/var_A/var_G are modelled as Z@u_a + (beta[0] + mean-weighted other fixed effects) and population variance",
+           "DenseAdditiveDominanceLinearGenomicModel.gegv/var_G are modelled as [A | D] @ [u_a ; u_d] (D = (A != 0) & (A != ploidy)), its gebv/var_A as A @ u_a; rrBLUPModel0 as its additive parent; "
+           "the table GMOD_CLASSES of concrete classes of pybrops.model.gmod is audited by introspection on every run (a new concrete class fails the check until the heritability cases build it); "
+           "the gmod sources are not translated: their tie is differential (herit cases) only"]
 ASSUMPTIONS = ["trait values finite; taxa labels printable ASCII strings; variances are squares of dyadic standard deviations in scripted cases",
                "without a genotype matrix a null group label is exported by to_numpy(dtype=int) as INT64_MIN (numpy NaN->int64 cast on x86-64, RuntimeWarning only): modelled as such",
                "sessions: the trait count and the marker count stay fixed; after set_h2/set_H2 the error standard deviation handed to the model is the float square root of the "
@@ -279,6 +296,7 @@ def gen_cases(rng, tier):
     for which in (("env", "rep", "err", "all") if quick else ("env", "rep", "err", "all") * 3):
         cases.append(_monitor(rng, which))
     cases += _gen_sessions(rng, quick)
+    cases += _gen_herit(rng, quick)
     return cases
 
 # ------------------------------------------------------------------ implementation driver
@@ -450,6 +468,7 @@ def run_impl(case):
     from pybrops.breed.prot.pt.TruePhenotyping import TruePhenotyping
     from pybrops.breed.prot.bv.TrueBreedingValue import TrueBreedingValue
     if case["kind"] == "session": return _run_session(case)
+    if case["kind"] == "herit": return _run_herit(case)
     if case["kind"] == "table":
         tn = case["trait"]
         d = {"taxa": [r[0] for r in case["rows"]], "taxa_grp": [r[1] for r in case["rows"]]}
@@ -690,6 +709,8 @@ def pred(case, out):
         _pred_est(case, out, bad); return _dedupe(bad)
     if case["kind"] == "session":
         _pred_session(case, out, bad); return _dedupe(bad)
+    if case["kind"] == "herit":
+        _pred_herit(case, out, bad); return _dedupe(bad)
     nenv, reps = _design(case)                         # the number of environments in force at the call, their replicate counts
     if not _pred_ge(case, out, nenv, reps, bad): return bad
     _pred_true(case, out, bad)
@@ -828,6 +849,11 @@ def nontrivial(case, out):
         if "exc" in out or ks.count("pheno") < 2: return False
         first, last = ks.index("pheno"), len(ks) - 1 - ks[::-1].index("pheno")
         return any(k not in ("pheno", "copy") for k in ks[first:last])
+    if case["kind"] == "herit":                                # a dominance model whose var_G differs from var_A in every trait, both setters called
+        if "exc" in out or case["gmod"]["cls"] != "adddom": return False
+        ks = [op["op"] for op in case["steps"]]
+        ga, gg = _raw_values(case, _herit_state(case)); t_ = len(case["gmod"]["u"][0])
+        return "h2" in ks and "H2" in ks and all(a != b and b > 0 for a, b in zip(_popvar(ga, t_), _popvar(gg, t_)))
     if case["kind"] == "monitor" or "exc" in out or "exc" in out.get("df", {}): return False
     rows, _ = _base_table(case, out)
     sub = [rows[i] for i in _kept(case, rows)]
@@ -844,6 +870,13 @@ def describe(case, out):
         ks = [op["op"] for op in case["steps"]]
         d["protocol"] = case["proto"]["cls"]; d["calls"] = ks.count("pheno")
         d["updates"] = "+".join(sorted(set(k for k in ks if k != "pheno"))) or "none"
+        return d
+    if case["kind"] == "herit":
+        ks = [op["op"] for op in case["steps"]]
+        d["model"] = case["gmod"]["cls"]; d["ploidy"] = len(case["geno"]); d["ntrait"] = len(case["gmod"]["u"][0])
+        d["targets"] = "+".join(sorted(set(("per-trait" if isinstance(op["val"], list) else "scalar") for op in case["steps"] if "val" in op)))
+        d["target_one"] = any(1.0 in (op["val"] if isinstance(op["val"], list) else [op["val"]]) for op in case["steps"] if "val" in op)
+        d["updates_between"] = "set_ud" in ks or "set_u" in ks
         return d
     d["grp_col"] = bool(est.get("grp")); d["gt"] = "none" if est.get("gt") is None else ("unlabelled" if est["gt"]["taxa"] is None else "labelled")
     d["dropped_rows"] = bool(est.get("drop") or est.get("drop_taxon"))
@@ -894,6 +927,7 @@ def emit_case(case, out):
     if case["kind"] == "monitor": return None
     if "exc" in out: return "false"
     if case["kind"] == "session": return _emit_session(case, out)
+    if case["kind"] == "herit": return _emit_herit(case, out)
     parts = []
     if case["kind"] == "table":
         _emit_est(case, out, parts)
@@ -1322,6 +1356,284 @@ def _emit_session(case, out):
             % (s0, ";\n    ".join(ops), "\n   && ".join(checks)))
 
 
+# ================================================================== heritability over the family of genomic models
+# kind "herit": ONE G_E_Phenotyping object on a population with heterozygous loci and a genomic model of EVERY concrete class of
+# pybrops.model.gmod (GMOD_CLASSES below, audited by introspection); a list of steps -- set_h2 / set_H2 with scalar / per-trait targets
+# (< 1, = 1, rarely > 1), in-place updates of u_a / u_d in between -- each judged against var_A / var_G recomputed from the raw
+# genotypes and effects; plus TruePhenotyping (table = truth with dominance, both setters refuse), TrueBreedingValue (= A@u_a + location)
+# and a zero-noise G_E trial (= truth with dominance).
+GMOD_CLASSES = {   # concrete classes of pybrops.model.gmod -> how the heritability cases build them
+    "DenseAdditiveLinearGenomicModel": "add", "rrBLUPModel0": "rrblup", "DenseAdditiveDominanceLinearGenomicModel": "adddom / adddom_none (u_d = None -> zeros)",
+}
+HERIT_CLS = ["add", "rrblup", "adddom", "adddom", "adddom", "adddom_none"]
+HERIT_TARGETS = [1.0, 0.5, 0.25, 0.75, 0.125, 0.625, 0.875]
+
+def _herit(rng, cls=None, m=None, scale_exp=None, t=None, script=None):
+    if cls is None: cls = rng.choice(HERIT_CLS)
+    if m is None: m = rng.choice([2, 2, 2, 2, 4, 4, 1, 3])
+    n = rng.choice([2, 3, 3, 4, 5, 6, 8]); p = rng.randint(1, 4)
+    if t is None: t = rng.choice([1, 2, 2, 3])
+    geno = [[[rng.randint(0, 1) for _ in range(p)] for _ in range(n)] for _ in range(m)]
+    l0 = rng.randrange(p); i0, i1 = rng.sample(range(n), 2)
+    if m >= 2:                                         # taxon i0 heterozygous at locus l0, taxon i1 homozygous there
+        for ph in range(m): geno[ph][i0][l0] = 1 if ph == 0 else 0
+        v = rng.randint(0, 1)
+        for ph in range(m): geno[ph][i1][l0] = v
+    k = rng.choice(SCALES) if scale_exp is None else scale_exp
+    f = 2.0 ** k
+    newmat = lambda rows: [[_grid(rng) * f for _ in range(t)] for _ in range(rows)]
+    def new_ud():
+        ud = newmat(p)
+        for j in range(t):                             # non-zero dominance effect at the heterozygous locus, every trait
+            if ud[l0][j] == 0.0: ud[l0][j] = rng.choice([-1.5, 0.75, 2.0]) * f
+        return ud
+    nfixed = 1 if rng.random() < 0.7 else 2
+    case = {"kind": "herit", "geno": geno, "taxa": None if rng.random() < 0.4 else rng.sample(LABELS, n),
+            "taxa_grp": None if rng.random() < 0.5 else [rng.randint(1, 3) for _ in range(n)],
+            "gmod": {"cls": cls, "beta": newmat(nfixed), "u": newmat(p), "u_d": new_ud() if cls == "adddom" else None,
+                     "trait": None if rng.random() < 0.3 else rng.sample(TRAITS, t)},
+            "scale_exp": k, "routes": {"pop": rng.choice(POP_ROUTES), "model": rng.choice(MODEL_ROUTES), "proto": rng.choice(PROTO_ROUTES)},
+            "sd_env": _scaled(_sd(rng, t), f), "sd_rep": _scaled(_sd(rng, t), f), "sd_err": _scaled(_sd(rng, t), f)}
+    if script is None:
+        script = ["H2", "h2"] if rng.random() < 0.5 else ["h2", "H2"]
+        for _ in range(rng.randint(0, 3)):
+            script.insert(rng.randint(0, len(script)), rng.choice(["h2", "H2", "H2", "set_ud", "set_u"]))
+    steps = []
+    for kk in script:
+        if kk == "set_ud":
+            if cls in ("adddom", "adddom_none"): steps.append({"op": "set_ud", "u_d": new_ud()})
+        elif kk == "set_u": steps.append({"op": "set_u", "u": newmat(p)})
+        else:
+            r = rng.random()
+            vals = HERIT_TARGETS if r < 0.94 else [1.5, 2.0]
+            form = rng.random()
+            if form < 0.4: v = rng.choice(vals)
+            elif form < 0.5: v = 1.0
+            else:
+                v = [rng.choice(vals) for _ in range(t)]
+                if t > 1 and r < 0.94 and len(set(v)) == 1: v[rng.randrange(t)] = rng.choice([x for x in HERIT_TARGETS if x != v[0]])
+            steps.append({"op": kk, "val": v})
+    case["steps"] = steps
+    case["draws"] = [[_grid(rng, 3, 4) for _ in range(t)], [_grid(rng, 3, 4) for _ in range(t)], [_grid(rng, 3, 4) for _ in range(n * t)]]
+    return case
+
+def _gen_herit(rng, quick):
+    out = []
+    for cls in ("add", "rrblup", "adddom", "adddom_none"):          # every class, diploid and tetraploid, both setters, scalar and per-trait
+        for m in (2, 4):
+            out.append(_herit(rng, cls=cls, m=m, t=2, scale_exp=0, script=["H2", "h2", "set_ud", "H2", "set_u", "h2", "H2"]))
+    for k_ in (-40, -20, 10, 20):
+        out.append(_herit(rng, cls="adddom", m=2, scale_exp=k_))
+    for _ in range(110 if quick else 4000):
+        out.append(_herit(rng))
+    return out
+
+def _mk_gmod(g, route="ctor", u=None, u_d=None):
+    """a genomic model of the class named by g["cls"], through the constructor, deepcopy, or coefficient setters"""
+    from pybrops.model.gmod.DenseAdditiveLinearGenomicModel import DenseAdditiveLinearGenomicModel
+    from pybrops.model.gmod.DenseAdditiveDominanceLinearGenomicModel import DenseAdditiveDominanceLinearGenomicModel
+    from pybrops.model.gmod.rrBLUPModel0 import rrBLUPModel0
+    b = numpy.array(g["beta"], dtype=float); ua = numpy.array(g["u"] if u is None else u, dtype=float)
+    tr = None if g["trait"] is None else numpy.array(g["trait"], dtype=object)
+    cls = g["cls"]
+    ud = g["u_d"] if u_d is None else u_d
+    ud = None if ud is None else numpy.array(ud, dtype=float)
+    if cls in ("add", "rrblup"):
+        K = DenseAdditiveLinearGenomicModel if cls == "add" else rrBLUPModel0
+        if route == "setters":
+            gm = K(beta=numpy.zeros_like(b), u_misc=None, u_a=numpy.ones_like(ua), trait=tr); gm.beta = b; gm.u_a = ua
+        else: gm = K(beta=b, u_misc=None, u_a=ua, trait=tr)
+    else:
+        K = DenseAdditiveDominanceLinearGenomicModel
+        if route == "setters":
+            gm = K(beta=numpy.zeros_like(b), u_misc=None, u_a=numpy.ones_like(ua), u_d=numpy.ones_like(ua), trait=tr)
+            gm.beta = b; gm.u_a = ua; gm.u_d = numpy.zeros_like(ua) if ud is None else ud
+        else: gm = K(beta=b, u_misc=None, u_a=ua, u_d=ud, trait=tr)
+    return copy.deepcopy(gm) if route == "deepcopy" else gm
+
+def _run_herit(case):
+    from rngscript import Scripted
+    from pybrops.breed.prot.pt.G_E_Phenotyping import G_E_Phenotyping
+    from pybrops.breed.prot.pt.TruePhenotyping import TruePhenotyping
+    from pybrops.breed.prot.bv.TrueBreedingValue import TrueBreedingValue
+    routes = case["routes"]; g = case["gmod"]; t = len(g["u"][0])
+    pg = _mk_pop(case["geno"], case["taxa"], case["taxa_grp"], routes["pop"])
+    gm = _mk_gmod(g, routes["model"])
+    pt = _mk_proto(gm, 1, 1, _var_arg(case["sd_env"], t), _var_arg(case["sd_rep"], t), _var_arg(case["sd_err"], t), Scripted(normals=[]), routes["proto"])
+    geno_before = numpy.array(pg.mat, copy=True); labels_before = _labels_snapshot(pg)
+    out = {"cls": type(pt.gpmod).__name__, "ploidy": int(pg.ploidy), "steps": []}
+    raised = lambda x: isinstance(x, dict) and "exc" in x
+    for op in case["steps"]:
+        k = op["op"]
+        if k == "set_ud":
+            out["steps"].append(_try(lambda: setattr(pt.gpmod, "u_d", numpy.array(op["u_d"], dtype=float)) or {"ok": True})); continue
+        if k == "set_u":
+            out["steps"].append(_try(lambda: setattr(pt.gpmod, "u_a", numpy.array(op["u"], dtype=float)) or {"ok": True})); continue
+        val = op["val"] if not isinstance(op["val"], list) else numpy.array(op["val"], dtype=float)
+        def seth():
+            before = [pt.var_env.copy(), pt.var_rep.copy()]
+            mdl = pt.gpmod; coef = [numpy.array(mdl.u_a, copy=True), numpy.array(mdl.beta, copy=True)] + ([numpy.array(mdl.u_d, copy=True)] if hasattr(mdl, "u_d") else [])
+            (pt.set_h2 if k == "h2" else pt.set_H2)(val, pg)
+            now = [mdl.u_a, mdl.beta] + ([mdl.u_d] if hasattr(mdl, "u_d") else [])
+            return {"var_err": [float(x).hex() for x in pt.var_err],
+                    "others_unchanged": bool(numpy.array_equal(before[0], pt.var_env) and numpy.array_equal(before[1], pt.var_rep)),
+                    "inputs_unchanged": bool(numpy.array_equal(pg.mat, geno_before) and _labels_snapshot(pg) == labels_before
+                                             and all(numpy.array_equal(a, b) for a, b in zip(coef, now)))}
+        out["steps"].append(_try(seth))
+    # the model in force at the end: truth with dominance through both protocols and the breeding values
+    mdl = pt.gpmod
+    def true_part():
+        tp = TruePhenotyping(mdl)
+        r = _canon_df(tp.phenotype(pg))
+        r["var_err"] = [float(x) for x in tp.var_err]
+        r["set_h2_refused"] = raised(_try(lambda: tp.set_h2(0.5, pg))); r["set_H2_refused"] = raised(_try(lambda: tp.set_H2(0.5, pg)))
+        r["set_H2_one_refused"] = raised(_try(lambda: tp.set_H2(1.0, pg)))
+        return r
+    out["true_df"] = _try(true_part)
+    out["true_bv"] = _try(lambda: _canon_bv(TrueBreedingValue(mdl).estimate(None, pg)))
+    def zero_noise():
+        rng = Scripted(normals=copy.deepcopy(case["draws"]))
+        z = G_E_Phenotyping(mdl, nenv=1, nrep=1, var_env=None, var_rep=0.0, var_err=numpy.zeros(t), rng=rng)
+        r = _canon_df(z.phenotype(pg)); r["left"] = len(rng.q["normal"])
+        return r
+    out["zero_df"] = _try(zero_noise)
+    return out
+
+def _herit_state(case):
+    g = case["gmod"]; p = len(g["u"]); t = len(g["u"][0])
+    ud = g["u_d"] if g["u_d"] is not None else [[0.0] * t for _ in range(p)]
+    return {"u": g["u"], "u_d": ud if g["cls"] in ("adddom", "adddom_none") else None}
+
+def _herit_walk(case, out):
+    """(operation, its output, coefficients in force at the operation)"""
+    st = _herit_state(case)
+    for op, o in zip(case["steps"], out["steps"]):
+        if op["op"] == "set_ud": st = dict(st, u_d=op["u_d"])
+        elif op["op"] == "set_u": st = dict(st, u=op["u"])
+        yield op, o, st
+    yield None, None, st
+
+def _raw_values(case, st):
+    """from the raw genotypes and effects, exactly: breeding values A@u_a and genotypic values A@u_a + D@u_d (n x t each),
+    D = 1 where the dosage is neither 0 nor the ploidy"""
+    geno = case["geno"]; m, n, p = len(geno), len(geno[0]), len(geno[0][0]); t = len(st["u"][0])
+    A = [[sum(geno[ph][i][l] for ph in range(m)) for l in range(p)] for i in range(n)]
+    ga = [[sum(A[i][l] * _F(st["u"][l][j]) for l in range(p)) for j in range(t)] for i in range(n)]
+    if st["u_d"] is None: return ga, ga
+    gg = [[ga[i][j] + sum(_F(st["u_d"][l][j]) for l in range(p) if A[i][l] not in (0, m)) for j in range(t)] for i in range(n)]
+    return ga, gg
+
+def _popvar(vals, t):
+    n = len(vals); out = []
+    for j in range(t):
+        col = [vals[i][j] for i in range(n)]; mu = sum(col) / n
+        out.append(sum((x - mu) ** 2 for x in col) / n)
+    return out
+
+def _rel_close(a, b, tol=Fraction(1, 2 ** 28)):
+    return a == b if b == 0 else abs(a - b) <= tol * abs(b)
+
+def _pred_herit(case, out, bad):
+    g = case["gmod"]; t = len(g["u"][0]); n = len(case["geno"][0]); m = len(case["geno"])
+    beta = g["beta"]; nf = len(beta)
+    loc = [_F(beta[0][j]) + sum(_F(beta[k][j]) for k in range(1, nf)) / nf for j in range(t)]
+    if out["ploidy"] != m: bad.append("harness: ploidy %r of a population with %d phases" % (out["ploidy"], m))
+    if len(out["steps"]) != len(case["steps"]): bad.append("harness: step count"); return
+    for i, (op, o, st) in enumerate(_herit_walk(case, out)):
+        if op is None: break
+        tag = "step %d (%s, %s): " % (i, "set_" + op["op"] if op["op"] in ("h2", "H2") else op["op"], out["cls"])
+        if op["op"] in ("set_ud", "set_u"):
+            if "exc" in o: bad.append(tag + "raised %s: %s" % (o["exc"], o["msg"]))
+            continue
+        ga, gg = _raw_values(case, st)
+        var = _popvar(gg if op["op"] == "H2" else ga, t); vname = "var_G" if op["op"] == "H2" else "var_A"
+        hv = [_F(x) for x in (op["val"] if isinstance(op["val"], list) else [op["val"]] * t)]
+        if any(hv[j] > 1 and var[j] > 0 for j in range(t)):
+            if "exc" not in o: bad.append(tag + "accepted a heritability > 1")
+            continue
+        if "exc" in o: bad.append(tag + "raised %s: %s" % (o["exc"], o["msg"])); continue
+        if not o["others_unchanged"]: bad.append(tag + "changed var_env/var_rep")
+        if not o["inputs_unchanged"]: bad.append(tag + "modified the population or the model coefficients")
+        if len(o["var_err"]) != t: bad.append(tag + "var_err has %d entries for %d traits" % (len(o["var_err"]), t)); continue
+        for j in range(t):
+            ve = _fh(o["var_err"][j]); want = (1 - hv[j]) / hv[j] * var[j]
+            if not _rel_close(ve, want):
+                ratio = "undefined" if var[j] + ve == 0 else "%.6g" % float(var[j] / (var[j] + ve))
+                bad.append(tag + "var_err[%d] = %.6g, expected (1-%s)/%s * %s = %.6g (%s recomputed from the genotypes and effects = %.6g): %s/(%s+var_err) = %s, target %s"
+                           % (j, float(ve), float(hv[j]), float(hv[j]), vname, float(want), vname, float(var[j]), vname, vname, ratio, float(hv[j])))
+    ga, gg = _raw_values(case, st)
+    taxa = case["taxa"] if case["taxa"] is not None else _autolabels("Taxon", n)
+    tnames = g["trait"] if g["trait"] is not None else _autolabels("Trait", t)
+    grp = case["taxa_grp"]
+    td = out["true_df"]
+    if "exc" in td: bad.append("TruePhenotyping raised %s: %s" % (td["exc"], td["msg"]))
+    else:
+        if td["var_err"] != [0.0] * t: bad.append("TruePhenotyping.var_err is %r" % (td["var_err"],))
+        if not (td["set_h2_refused"] and td["set_H2_refused"] and td["set_H2_one_refused"]): bad.append("TruePhenotyping.set_h2 / set_H2 did not refuse")
+        if td["cols"] != ["taxa"] + (["taxa_grp"] if grp is not None else []) + tnames: bad.append("TruePhenotyping columns %r" % td["cols"])
+        if td["nrow"] != n or td["taxa"] != taxa or (grp is not None and td.get("taxa_grp") != grp): bad.append("TruePhenotyping: one labelled record per taxon expected")
+        elif any(v is None or not _close(_fh(v), gg[i][j] + loc[j]) for i in range(n) for j, v in enumerate(td["vals"][i])):
+            bad.append("TruePhenotyping value is not the true genotypic value (additive + dominance part + location) of the %s" % out["cls"])
+    tb = out["true_bv"]
+    if "exc" in tb: bad.append("TrueBreedingValue raised %s: %s" % (tb["exc"], tb["msg"]))
+    elif len(tb["mat"]) != n or any(v is None or not _close(_fh(v), ga[i][j] + loc[j]) for i in range(n) for j, v in enumerate(tb["mat"][i])):
+        bad.append("TrueBreedingValue is not A @ u_a + location")
+    zd = out["zero_df"]
+    if "exc" in zd: bad.append("zero-noise phenotype() raised %s: %s" % (zd["exc"], zd["msg"]))
+    else:
+        if zd["left"] != 0: bad.append("zero-noise phenotype() left %d scripted draws unused" % zd["left"])
+        if zd["nrow"] != n or zd["taxa"] != taxa: bad.append("zero-noise phenotype(): one labelled record per taxon expected")
+        elif any(v is None or not _close(_fh(v), gg[i][j] + loc[j]) for i in range(n) for j, v in enumerate(zd["vals"][i])):
+            bad.append("with zero noise the value is not the true genotypic value (additive + dominance part + location) of the %s" % out["cls"])
+
+def _gm_lit(st):
+    if st["u_d"] is None: return "(GAdd %s)" % E.lst2(st["u"], _q)
+    return "(GAddDom %s %s)" % (E.lst2(st["u"], _q), E.lst2(st["u_d"], _q))
+
+def _emit_herit(case, out):
+    g = case["gmod"]; geno = case["geno"]; m, n, p = len(geno), len(geno[0]), len(geno[0][0]); t = len(g["u"][0])
+    head = ("let dos := dosage %d %d %s in let beta := %s in\n  let taxa := %s in let grp := %s in let trait := %s in\n"
+            "  let tnames := labels_or_auto \"Trait\"%%string %d trait in\n"
+            % (n, p, E.lst3(geno, E.z), E.lst2(g["beta"], _q), _optl(case["taxa"], E.s), _optl(case["taxa_grp"], E.z), _optl(g["trait"], E.s), t))
+    parts = ["Z.eqb %s %s" % (E.z(out["ploidy"]), E.z(m))]
+    for op, o, st in _herit_walk(case, out):
+        if op is None: break
+        if op["op"] in ("set_ud", "set_u"): parts.append(E.b("exc" not in o)); continue
+        harg = "(HArr %s)" % E.lst(op["val"], _q) if isinstance(op["val"], list) else "(HScalar %s)" % _q(op["val"])
+        impl = "None" if "exc" in o else "(Some %s)" % E.lst(o["var_err"], _qh)
+        parts.append("h2_agree %s (%s %d %s %s dos %s)" % (impl, "ge_set_H2" if op["op"] == "H2" else "ge_set_h2", t, harg, E.z(m), _gm_lit(st)))
+        parts.append(E.b("exc" in o or (o["others_unchanged"] and o["inputs_unchanged"])))
+    head += "  let gm := %s in let gvm := gm_gv %d %s dos gm beta in\n" % (_gm_lit(st), t, E.z(m))
+    td, tb, zd = out["true_df"], out["true_bv"], out["zero_df"]
+    if "exc" in td or "exc" in tb or "exc" in zd: parts.append("false")
+    else:
+        tg = td.get("taxa_grp", [None] * td["nrow"])
+        parts.append("true_agree %s (true_rows %d taxa grp gvm)" % (E.lst([(td["taxa"][i], tg[i], [Fraction(float.fromhex(h)) for h in td["vals"][i]])
+                                                                           for i in range(td["nrow"])], _trow), n))
+        parts.append("sl_eqb %s (true_cols grp tnames)" % E.lst(td["cols"], E.s))
+        parts.append(E.b(td["set_h2_refused"] and td["set_H2_refused"] and td["set_H2_one_refused"]))
+        if any(v is None for r in tb["mat"] for v in r) or any(v is None for r in zd["vals"] for v in r) or any(x is None for x in zd["taxa"] + zd["env"] + zd["rep"]): return "false"
+        parts.append("qclose_ll %s (gm_bv %d dos gm beta)" % (E.lst2(tb["mat"], _qh), t))
+        zg = zd.get("taxa_grp", [None] * zd["nrow"])
+        irows = [E.tup(E.s(zd["taxa"][i]), E.opt(zg[i], E.z), E.z(zd["env"][i]), E.z(zd["rep"][i]), E.lst(zd["vals"][i], _qh)) for i in range(zd["nrow"])]
+        zeros = "(repeat 0%%Q %d)" % t
+        parts.append("pheno_agree [%s]\n     (phenotype %d %d taxa grp gvm 1 [1%%nat] %s %s %s %s)" % ("; ".join(irows), n, t, zeros, zeros, zeros, E.lst2(case["draws"], _q)))
+    return "(" + head + "  " + "\n   && ".join(parts) + ")"
+
+def audit_gmod_classes():
+    """every concrete class of pybrops.model.gmod must be one the heritability cases build (fail closed on a new class)"""
+    import importlib, inspect, pkgutil
+    import pybrops.model.gmod as G
+    found = set()
+    for mi in pkgutil.iter_modules(G.__path__):
+        mod = importlib.import_module("pybrops.model.gmod." + mi.name)
+        for name, obj in vars(mod).items():
+            if inspect.isclass(obj) and obj.__module__ == mod.__name__ and not inspect.isabstract(obj): found.add(name)
+    if found != set(GMOD_CLASSES):
+        raise RuntimeError("genomic-model audit: concrete classes of pybrops.model.gmod are %s, the heritability cases build %s" % (sorted(found), sorted(GMOD_CLASSES)))
+    return {"file": "(genomic-model class audit)", "classes": sorted(found)}
+
+
 # ================================================================== kernel expressions regenerated from the source
 # ================================================================== entry points of the anchored modules (fail closed)
 # every public class / method / property / parameter of the four anchored modules is either driven by this module or listed in
@@ -1333,9 +1645,9 @@ COVERED = {
                         "copy": "proto route copy_m, session copies", "deepcopy": "proto route deepcopy_m, session copies", "gpmod": "sessions (getter; setter with a new model object)",
                         "nenv": "trials (nenv_set), sessions, proto route setters", "nrep": "sessions, proto route setters", "var_env": "setter/getter everywhere",
                         "var_rep": "setter/getter everywhere", "var_err": "setter/getter everywhere; set_h2", "phenotype": "every trial/session (with and without miscout)",
-                        "set_h2": "trials, sessions", "set_H2": "trials, sessions"},
+                        "set_h2": "trials, sessions, herit cases (every genomic-model class)", "set_H2": "trials, sessions, herit cases (every genomic-model class)"},
     "TruePhenotyping": {"__init__": "trials/sessions", "__copy__": "sessions", "__deepcopy__": "sessions", "copy": "sessions (method)", "deepcopy": "sessions (method)",
-                        "gpmod": "sessions", "var_err": "trials (zeros per trait; read-only)", "phenotype": "every trial / True sessions", "set_h2": "trials (refusal)", "set_H2": "trials (refusal)"},
+                        "gpmod": "sessions", "var_err": "trials (zeros per trait; read-only)", "phenotype": "every trial / True sessions / herit cases (dominance models)", "set_h2": "trials, herit cases (refusal)", "set_H2": "trials, herit cases (refusal, also for a target of 1)"},
     "MeanPhenotypicBreedingValue": {"__init__": "every estimate (str / list trait_cols, with / without group column)", "taxa_col": "bv route setters", "taxa_grp_col": "bv route setters, sessions",
                                     "trait_cols": "bv route setters, sessions", "estimate": "every trial/table/session (with/without gtobj, miscout)"},
     "TrueBreedingValue": {"__init__": "trials/sessions", "gpmod": "constructor", "estimate": "trials/sessions (ptobj None, with/without miscout)"},
@@ -1384,4 +1696,4 @@ def translate(repo, gen_dir):
     """regenerate Gen/C14_Kernel.v (kernel expressions of phenotype / set_h2 / set_H2 / the setters / both estimate methods) from
     the current source; fail closed"""
     from translate import c14_kernel
-    return [c14_kernel.translate(repo, gen_dir), audit_entry_points()]
+    return [c14_kernel.translate(repo, gen_dir), audit_entry_points(), audit_gmod_classes()]
